@@ -6,17 +6,43 @@ import (
 	"fmt"
 	"sort"
 	"strings"
+	"unicode/utf16"
 )
 
 // JSONSpellings: alternative spellings of the same JSON document: indentation, reversed member order at
 // every level, every member name with its first character as a \uXXXX escape, and the three
-// together. They are the same document to any JSON reader, so they decode to the same policy.
+// together; then two spellings of the strings themselves (member names and values): every
+// solidus written `\/`, and every character written as \uXXXX escapes (surrogate pairs above
+// the BMP). They are the same document to any JSON reader, so they decode to the same object.
 func JSONSpellings(js []byte) ([]string, error) {
 	dec := json.NewDecoder(bytes.NewReader(js))
 	dec.UseNumber()
 	var v any
 	if err := dec.Decode(&v); err != nil {
 		return nil, err
+	}
+	strMode := 0
+	quote := func(k string) string {
+		switch strMode {
+		case 1:
+			b, _ := json.Marshal(k)
+			return strings.ReplaceAll(string(b), "/", `\/`)
+		case 2:
+			var sb strings.Builder
+			sb.WriteByte('"')
+			for _, r := range k {
+				if r >= 0x10000 {
+					r1, r2 := utf16.EncodeRune(r)
+					fmt.Fprintf(&sb, `\u%04X\u%04x`, r1, r2)
+				} else {
+					fmt.Fprintf(&sb, `\u%04x`, r)
+				}
+			}
+			sb.WriteByte('"')
+			return sb.String()
+		}
+		b, _ := json.Marshal(k)
+		return string(b)
 	}
 	var render func(v any, rev, esc bool, indent string, sb *strings.Builder)
 	render = func(v any, rev, esc bool, indent string, sb *strings.Builder) {
@@ -44,8 +70,7 @@ func JSONSpellings(js []byte) ([]string, error) {
 				if indent != "" {
 					sb.WriteString("\n" + in2)
 				}
-				kb, _ := json.Marshal(k)
-				ks := string(kb)
+				ks := quote(k)
 				if esc && len(k) > 0 && k[0] < 0x80 {
 					rest, _ := json.Marshal(k[1:])
 					ks = fmt.Sprintf("\"\\u%04x%s", k[0], rest[1:])
@@ -69,6 +94,8 @@ func JSONSpellings(js []byte) ([]string, error) {
 				render(e, rev, esc, in2, sb)
 			}
 			sb.WriteString(nl + "]")
+		case string:
+			sb.WriteString(quote(x))
 		default:
 			b, _ := json.Marshal(x)
 			sb.Write(b)
@@ -87,6 +114,11 @@ func JSONSpellings(js []byte) ([]string, error) {
 		if c.indent != "" {
 			sb.WriteString("\n")
 		}
+		out = append(out, sb.String())
+	}
+	for strMode = 1; strMode <= 2; strMode++ {
+		var sb strings.Builder
+		render(v, false, false, "", &sb)
 		out = append(out, sb.String())
 	}
 	return out, nil
